@@ -112,7 +112,7 @@ chk('C01', 'model_checking',
     STRAT_NOTE,
     'TLC model checking of the strategy specs + TLC trace validation of '
     'recorded CLI runs + external re-run of the command',
-    'Hier.tla, Ddmin.tla, TraceHier.tla, TraceDdmin.tla',
+    'Hier.tla, HierBad.tla, Ddmin.tla, TraceHier.tla, TraceDdmin.tla',
     'DESIGN.md section 5, C01')
 
 chk('C02', 'model_checking',
@@ -127,7 +127,7 @@ chk('C02', 'model_checking',
     'names.',
     'TLC model checking + TLC trace validation + exhaustive external '
     'enumeration of proposals on the output',
-    'Hier.tla, TraceHier.tla', 'DESIGN.md section 5, C02')
+    'Hier.tla, HierBad.tla, TraceHier.tla', 'DESIGN.md section 5, C02')
 
 chk('C05', 'model_checking',
     'Hier.tla / Ddmin.tla state Chain, NoStaleAdoption and FinalIsLast; TLC '
@@ -144,7 +144,7 @@ chk('C05', 'model_checking',
     STRAT_NOTE,
     'TLC model checking of all interleavings + TLC trace validation of '
     'free-running and schedule-enumerated parallel executions',
-    'Hier.tla, Ddmin.tla, TraceHier.tla, TraceDdmin.tla',
+    'Hier.tla, HierBad.tla, Ddmin.tla, TraceHier.tla, TraceDdmin.tla',
     'DESIGN.md section 5, C05')
 
 chk('C18', 'model_checking',
@@ -158,7 +158,7 @@ chk('C18', 'model_checking',
     STRAT_NOTE,
     'TLC model checking (1 worker) + repeated runs under different hash seeds '
     '+ TLC trace validation',
-    'Hier.tla, Ddmin.tla, TraceHier.tla, TraceDdmin.tla',
+    'Hier.tla, HierBad.tla, Ddmin.tla, TraceHier.tla, TraceDdmin.tla',
     'DESIGN.md section 5, C18')
 
 chk('C15', 'model_checking',
@@ -342,6 +342,8 @@ ENGINES = [
      'main loop, abort flag)'),
     ('Ddmin.tla', 'specs/Ddmin.tla',
      'TLA+ spec: strategy_ddmin (_check_par/_check_seq, TaskGenerator)'),
+    ('HierBad.tla', 'specs/HierBad.tla',
+     'TLA+ spec: faulty variants of Hier.tla that its properties must refute'),
     ('TraceHier.tla', 'specs/TraceHier.tla',
      'TLA+ trace spec reusing Hier.tla action bodies'),
     ('TraceDdmin.tla', 'specs/TraceDdmin.tla',
